@@ -337,7 +337,11 @@ func (p *c11) Gen(ctx core.Ctx, i int) any {
 			if k == total-1 {
 				next = pre // back edge
 			}
-			files[fmt.Sprintf("layouts/l%d.vuego", k)] = fmt.Sprintf("---\nlayout: l%d\n---\n<div data-l=\"%d\"><div v-html=\"content\"></div></div>", next, k)
+			body := `<div v-html="content"></div>`
+			if (i/12)%2 == 0 && i%3 == 0 {
+				body += body // a layout that uses its content twice doubles the document per round
+			}
+			files[fmt.Sprintf("layouts/l%d.vuego", k)] = fmt.Sprintf("---\nlayout: l%d\n---\n<div data-l=\"%d\">%s</div>", next, k, body)
 		}
 		if i >= 12 { // long straight chains instead of cycles
 			files = map[string]string{}
